@@ -48,7 +48,7 @@ DEFS = ('-DPACKAGE_NAME=\\"yara\\" -DPACKAGE_VERSION=\\"4.5.2\\" -DPACKAGE_STRIN
         '-DHAVE_OPENSSL_ASN1_H=1 -DHAVE_OPENSSL_CRYPTO_H=1 -DHAVE_OPENSSL_BIO_H=1 -DHAVE_OPENSSL_PKCS7_H=1 '
         '-DHAVE_OPENSSL_X509_H=1 -DHAVE_OPENSSL_SAFESTACK_H=1 -DHAVE_LIBCRYPTO=1 -DHAVE_SCAN_PROC_IMPL=1 '
         '-DUSE_LINUX_PROC -DDOTNET_MODULE -DHASH_MODULE -DMACHO_MODULE -DDEX_MODULE -DBUCKETS_128=1 '
-        '-DCHECKSUM_1B=1 -DYARA_VERIF')
+        '-DCHECKSUM_1B=1 -D_GNU_SOURCE -DYARA_VERIF')
 
 FLAVOURS = {
     "asan": "-O1 -g -fno-omit-frame-pointer -fsanitize=address,undefined -fno-sanitize-recover=all",
@@ -98,9 +98,11 @@ def build(flavour="asan", harness=(), cli=False, extra_defs="", tag=None, quiet=
     if os.path.realpath(REPO) != "/repo":          # scratch copies get their own object directory (no stale objects)
         name += "-" + hashlib.sha1(os.path.realpath(REPO).encode()).hexdigest()[:8]
     bdir = os.path.join(BUILD, name)
+    cflags = "%s %s %s -Wno-deprecated-declarations -w" % (FLAVOURS[flavour], DEFS, extra_defs)
+    name += "-" + hashlib.sha1(cflags.encode()).hexdigest()[:6]      # a flag change never reuses stale objects
+    bdir = os.path.join(BUILD, name)
     os.makedirs(os.path.join(bdir, "o"), exist_ok=True)
     os.makedirs(os.path.join(bdir, "bin"), exist_ok=True)
-    cflags = "%s %s %s -Wno-deprecated-declarations -w" % (FLAVOURS[flavour], DEFS, extra_defs)
     inc = "-I%s/libyara -I%s/libyara/include -I%s" % (REPO, REPO, REPO)
     mk = []
     mk.append("CC=gcc")
